@@ -109,7 +109,9 @@ abs_time_to_prev_next = Contract(
 
 
 # ---- sort_by_time ---------------------------------------------------------------------------------
-SORT_DT = np.dtype([("time", np.int64), ("channel", np.int16), ("tag", np.int32)])
+# a field (endtime) sits between time and channel so that numpy's default tie-breaking by the remaining fields
+# in dtype order differs from the documented (time, channel) order
+SORT_DT = np.dtype([("time", np.int64), ("endtime", np.int64), ("channel", np.int16), ("tag", np.int32)])
 
 
 def _sbt_ens(S, a, r):
@@ -134,15 +136,22 @@ def _sbt_gen(rng, tier):
                 x["time"] = times
                 x["channel"] = chans
                 x["tag"] = np.arange(n)
+                x["endtime"] = x["time"] + 5 - np.arange(n)
                 yield dict(x=x)
+                if n >= 2:
+                    y = x.copy()
+                    y["time"] = y["time"] * (2 ** 61)      # forces the slow stable_sort path
+                    y["endtime"] = y["time"] + 5 - np.arange(n)
+                    yield dict(x=y)
     for _ in range(300 if tier == "quick" else 10000):
         n = rng.randint(0, 40)
         if rng.random() < 0.5:
             x = np.zeros(n, dtype=SORT_DT)
             x["channel"] = [rng.randint(-1, 3) for _ in range(n)]
+            x["endtime"] = [rng.randint(0, 9) for _ in range(n)]
         else:
             x = np.zeros(n, dtype=np.dtype([("time", np.int64), ("tag", np.int32)]))
-        big = rng.random() < 0.2
+        big = rng.random() < 0.4
         x["time"] = [rng.randint(0, 5) * (2 ** 61 // 5 if big else 1) for _ in range(n)]
         x["tag"] = np.arange(n)
         yield dict(x=x)
@@ -154,3 +163,40 @@ sort_by_time = Contract(
                     scope="all arrays of <=4 rows over times 0..2 x channels -1..1 (exhaustive) + random <=40 rows incl. "
                           "time spans that force the slow stable_sort path",
                     nontrivial=lambda i: len(i["x"]) >= 2))
+
+
+def _f17_region(inputs, outcome):
+    """Known finding F17: on the slow path (time span too large for the combined sort key) numpy's order=
+    breaks ties in (time, channel) by the remaining dtype fields instead of keeping the input order."""
+    if not outcome.failed or any("stable" not in f for f in outcome.failed):
+        return False
+    x = inputs["x"]
+    if len(x) < 2:
+        return False
+    ch = x["channel"].astype(np.int64) if "channel" in x.dtype.names else np.ones(len(x))
+    ch = ch - min(0, ch.min())
+    too_large = (int(x["time"].max()) - int(x["time"].min())) > (np.iinfo(np.int64).max - 10) / (ch.max() + 1)
+    keys = list(zip(x["time"].tolist(), ch.tolist()))
+    return bool(too_large) and len(set(keys)) < len(keys)
+
+
+sort_by_time.known_regions["F17"] = _f17_region
+
+
+def _f18_region(inputs, outcome):
+    """Known finding F18: the float comparison guarding the fast path lets through time spans whose combined sort
+    key (time - tmin) * (max_channel + 1) + channel overflows int64 (spans within rounding of the threshold)."""
+    if not outcome.failed:
+        return False
+    x = inputs["x"]
+    if len(x) < 2:
+        return False
+    ch = x["channel"].astype(np.int64) if "channel" in x.dtype.names else np.ones(len(x), dtype=np.int64)
+    ch = ch - min(0, int(ch.min()))
+    m = int(ch.max()) + 1
+    span = int(x["time"].max()) - int(x["time"].min())
+    fast_path = not (span > (np.iinfo(np.int64).max - 10) / m)
+    return fast_path and span * m + int(ch.max()) > np.iinfo(np.int64).max
+
+
+sort_by_time.known_regions["F18"] = _f18_region
